@@ -2,6 +2,7 @@ import Pike.Driver.Wire
 import Pike.Driver.Loc
 import Pike.Model.Proxy
 import Pike.Model.Resp
+import Pike.Model.Query
 namespace Pike.Driver
 open Pike Wire Proxy
 
@@ -26,11 +27,14 @@ def transportKeys : List Str :=
 def judgeProxy (st : ProxySt) (fields : List String) : ProxySt × String :=
   match fields with
   | ["case", _i, rw, rq, rs, lq, ae, cc, oage] =>
-    match parseList rw, parseList rq, parseList rs, unhex lq, unhex ae, unhex oage with
+    match parseList rw, parseList rq, parseList rs, parseList lq, unhex ae, unhex oage with
     | some rw, some rq, some rs, some lq, some ae, some oage =>
-      match rw.mapM splitColon, rq.mapM splitColon, rs.mapM splitColon with
-      | some rw, some rq, some rs => ({ active := true, l := ⟨rq, rs, lq, rw⟩, upAE := ae, cacheable := cc = "1", originAge := oage }, "ok case 0")
-      | _, _, _ => (st, "BADLINE proxy case pairs")
+      match rw.mapM splitColon, rq.mapM splitColon, rs.mapM splitColon, lq.mapM splitColon with
+      | some rw, some rq, some rs, some lq =>
+        -- the location's own parameters as they go on the wire: `url.Values.Encode` of the configured pairs
+        let lq := Query.encode (Query.ofPairs lq)
+        ({ active := true, l := ⟨rq, rs, lq, rw⟩, upAE := ae, cacheable := cc = "1", originAge := oage }, "ok case 0")
+      | _, _, _, _ => (st, "BADLINE proxy case pairs")
     | _, _, _, _, _, _ => (st, "BADLINE proxy case")
   | ["hfpseq", a2, a3, aok, _axs, b2, b3, bok, _bxs] =>
     -- on a hit-for-pass key: the conditional client got its 304, the range client its 206, and the plain clients
@@ -57,7 +61,9 @@ def judgeProxy (st : ProxySt) (fields : List String) : ProxySt × String :=
       let second := no = "1"
       -- the second request (a plain GET) finds the first one's entry only if that was a GET too
       let fetching := isGetHead && (!second || st.firstMethod ≠ "GET".toList)
-      let hit := second && st.cacheable && (st.firstMethod = "GET".toList)
+      -- the origin's Age counts against max-age=60: nothing is left to store when it has reached it
+      let ageLeaves : Bool := match (String.ofList st.originAge).toNat? with | some a => decide (a < 60) | none => true
+      let hit := second && st.cacheable && ageLeaves && (st.firstMethod = "GET".toList)
       let mxs : Str := if !isGetHead then "passed".toList else if fetching then "fetching".toList
         else if hit then "hit".toList else "hitForPass".toList
       let r : Req := ⟨m, path, rawq, h, body⟩
@@ -87,6 +93,8 @@ def judgeProxy (st : ProxySt) (fields : List String) : ProxySt × String :=
             ++ (if st.l.rewrites.isEmpty ∧ sp ≠ path then " TRIP upstream_saw_diff:path" else "")
             -- … and byte for byte as the client wrote it (an escaped reserved character stays escaped)
             ++ (if st.l.rewrites.isEmpty ∧ rawSeen ≠ rawSent.toList then " TRIP upstream_saw_diff:path:escaping" else "")
+            -- … also when the location has rewrite rules but none of them applies to this path
+            ++ (if !st.l.rewrites.isEmpty ∧ u.path = path ∧ rawSeen ≠ rawSent.toList then " TRIP upstream_saw_diff:path:escaping" else "")
             -- a `$k` of a rule's value that names one of the rule's wildcards never reaches the upstream verbatim
             ++ (if (st.l.rewrites.any fun (pat, value) =>
                     (List.range (pat.filter (· = '*')).length).any fun i =>
@@ -102,6 +110,7 @@ def judgeProxy (st : ProxySt) (fields : List String) : ProxySt × String :=
           (if second ∧ isGetHead ∧ (code ≠ 200 ∨ rbody ≠ "0123456789abcdefghijklmnopqrstuvwxyz".toList) then " TRIP partial_replayed" else "")
           ++ (if xs = "fetching".toList ∧ m = "GET".toList ∧ h.get "If-None-Match".toList = "\"v1\"".toList
                 ∧ (h.values "Range".toList).isEmpty ∧ (h.values "If-Modified-Since".toList).isEmpty ∧ code ≠ 304 then " TRIP no_304" else "")
+          ++ (if xs = "hit".toList ∧ !ageLeaves then " TRIP stored_unshareable TRIP lifetime_gt_declared" else "")
           ++ (if code = 200 ∧ st.l.respHeaders.any (fun kv => !(rh.values kv.1).contains kv.2) then " TRIP response_header_missing" else "")
           ++ (if code = 200 ∧ (rh.values "X-Origin".toList).take 2 ≠ ["o1".toList, "o2".toList] then " TRIP status_or_header_changed" else "")
           -- the origin's own Age header is an end-to-end header of its answer: an answer that is not served from
